@@ -514,6 +514,7 @@ func genC02(seed uint64, idx int, tier string) *Plan {
 			}
 		}
 	}
+	p.SharedOption = idx%4 == 2
 	return &Plan{Kind: "script", Seed: seed, Script: p}
 }
 
